@@ -408,9 +408,15 @@ func c23R4(c *engine.Ctx, hm *ssa.Function) {
 	cbs := 0
 	for _, f := range allFunctions(c, c.SSA["rpc"]) {
 		for _, g := range engine.WithAnon(f) {
-			for _, mu := range mapUpdatesOf(g, "p:e.rpc") {
-				cb := closureOf(mu.Value)
+			// (updates made directly or through a method that stores its parameter:
+			// the callback is then the argument of the method's call)
+			for _, ed := range rpcEdits(g) {
+				mu := ed.at
+				cb := closureOf(ed.val)
 				if cb == nil {
+					if _, isP := engine.Unwrap(ed.val).(*ssa.Parameter); isP && g.Parent() == nil {
+						continue // a registering method: judged at its calls, where the callback is named
+					}
 					c.Undecided("C23.R6", engine.FuncID(g)+"/callback#"+ordinal(g, mu), mu.Pos(), "the value registered as result callback is not a function literal")
 					continue
 				}
